@@ -80,13 +80,12 @@ structure Inv (s : State) : Prop where
     * `createPod`: non-empty namespace, pod name and owner name (what the API server guarantees);
     * `bind`: the request carries the pod UID (`args.PodUID`, the scheduler always sends it);
     * `reload`: the new configuration still contains the addresses of the live bound pods ("no configuration reload
-      that still contains the IP" is the property's own quantifier) and the injected fault, if any, hits the
-      config-map read or the store list, not one of ConfigurePool's store deletes. -/
+      that still contains the IP" is the property's own quantifier). -/
 def assumed (s : State) : Move → Bool
   | .createPod ns name kind app _ _ _ _ => ns ≠ "" && name ≠ "" && (kind == .bare || app ≠ "")
   | .bind _ _ uid _ _ _ _ => uid != 0
-  | .reload pools fault =>
-    decide (fault ≤ 2) && s.pods.all (fun e => e.2.finished || e.2.handed.all (fun h => configured pools h.ip))
+  | .reload pools _ =>
+    s.pods.all (fun e => e.2.finished || e.2.handed.all (fun h => configured pools h.ip))
   | _ => true
 
 /-- all side conditions along a history -/
@@ -117,9 +116,9 @@ theorem liveBound_set_self {P : Pods} {id : String × String} {p q : Pod} (h : L
 
 /-- shrinking the set of live bound pods keeps the records safe -/
 theorem Safe.anti {P P' : Pods} {s : State} (h : Safe P s) (hsub : ∀ q, LiveBound P' q → LiveBound P q) : Safe P' s :=
-  ⟨fun q hq => h.own q (hsub q hq), fun q hq => h.keyUids q (hsub q hq)⟩
+  ⟨fun q hq => h.own q (hsub q hq)⟩
 
 theorem Safe.of_alloc_eq {P : Pods} {s s' : State} (h : Safe P s) (ha : s'.alloc = s.alloc) : Safe P s' :=
-  ⟨fun q hq hd hm => by rw [ha]; exact h.own q hq hd hm, fun q hq ip r hg => by rw [ha] at hg; exact h.keyUids q hq ip r hg⟩
+  ⟨fun q hq hd hm => by rw [ha]; exact h.own q hq hd hm⟩
 
 end Galaxy.Plugin
